@@ -8,7 +8,7 @@ use serde_json::{json, Value};
 pub const DEF: PropDef = PropDef {
     id: "C11",
     level: "exploration",
-    rule: "(1) all sequences of 1..4 (thorough 1..5) atoms after 6 heads (`x is`, `x was`, `x are`, `x's`, `the zed were`, `rock x like`) over 34 atoms (words of length 1,3,9,10,11,20,23; words with inner / trailing / leading apostrophes; 's, 're, 's's suffixes; hyphenated words incl. keywords and numerals after the hyphen; keywords used as words; four non-ASCII words (2-byte letters, length 10, capitals with a hyphen); a numeral; period and comma as separate and glued atoms); expected = the decimal numeral spelled by the word lengths, correctly rounded; printed value within 4 ulp, exact for integers; (2) all line texts of length <=4 (thorough <=5) over {a, space, comma, period, !, apostrophe, é, 1, -} plus whole-lexeme atoms after `x says ` / `x said `: output equals the text byte for byte; (3) PoeticNumberLiteral::compute_value on every digit string of length <=6 (thorough <=7) x every position of the decimal point, each digit realised as a word of that length, and again as word + suffix splits; (4) right-hand sides that start with a literal word or a negative number are ordinary expressions; (5) one fixed probe of the recorded finding (an open quote in a poetic string swallows the following lines); non-trivial = all cases except the trivially empty text; distinct = distinct text / literal",
+    rule: "(1) all sequences of 1..4 (thorough 1..5) atoms after 6 heads (`x is`, `x was`, `x are`, `x's`, `the zed were`, `rock x like`) over 34 atoms (words of length 1,3,9,10,11,20,23; words with inner / trailing / leading apostrophes; 's, 're, 's's suffixes; hyphenated words incl. keywords and numerals after the hyphen; keywords used as words; four non-ASCII words (2-byte letters, length 10, capitals with a hyphen); a numeral; period and comma as separate and glued atoms); expected = the decimal numeral spelled by the word lengths, correctly rounded; printed value within 4 ulp, exact for integers; (2) all line texts of length <=4 (thorough <=5) over {a, space, comma, period, !, apostrophe, é, 1, -} plus whole-lexeme atoms after `x says ` / `x said `: output equals the text byte for byte; (3) PoeticNumberLiteral::compute_value on every digit string of length <=6 (thorough <=7) x every position of the decimal point, each digit realised as a word of that length, and again as word + suffix splits; (4) right-hand sides that start with a literal word, a negative number or a number literal of any size (235 numerals) are ordinary expressions; single words of 24..70 000 letters (plain, hyphenated, suffixed, 2-byte letters) and words whose letters change UTF-8 length when lower-cased, in three positions after three heads; (5) one fixed probe of the recorded finding (an open quote in a poetic string swallows the following lines); non-trivial = all cases except the trivially empty text; distinct = distinct text / literal",
     assumptions: &[
         "texts that leave a quote or parenthesis open on the line are outside the property's quantifier (recorded finding) and are not generated, except the one fixed probe",
         "tolerance: 4 units in the last place for numerals of <= 7 digits; integers below 2^53 must be exact",
@@ -245,6 +245,31 @@ fn build(tier: Tier) -> Box<dyn Check> {
             .iter()
             .map(|(a, b): &(&str, &str)| (a.to_string(), b.to_string()))
             .collect();
+            // words of every size class (one digit each: length modulo 10), alone / hyphenated / suffixed, and
+            // words whose letters change their UTF-8 length when lower-cased, first / in the middle / last
+            let mut special: Vec<(String, usize)> = Vec::new();
+            for l in [24usize, 25, 99, 100, 127, 128, 129, 255, 256, 257, 260, 300, 511, 512, 1000, 4096, 65535, 65536, 65537, 70000] {
+                special.push(("w".repeat(l), l));
+                special.push((format!("{}-{}", "w".repeat(l / 2), "v".repeat(l - l / 2 - 1)), l));
+                special.push((format!("{}'s", "w".repeat(l - 1)), l));
+                special.push((format!("{}é", "é".repeat(l - 1)), l));
+            }
+            for (w, l) in [("\u{2126}MEGA's", 6usize), ("\u{212a}x're", 4), ("İİ's", 3), ("İab", 3), ("aİ-İb's", 6), ("ẞẞ're", 4), ("Ⱥȿ's", 3), ("\u{212b}ngström's", 9)] {
+                special.push((w.to_string(), l));
+            }
+            for (w, l) in special {
+                let d = l % 10;
+                for head in ["x is ", "x's ", "the zed were "] {
+                    let say = if head.starts_with("the") { "say the zed" } else { "say x" };
+                    e.push((format!("{}abc {} de\n{}\n", head, w, say), format!("3{}2\n", d)));
+                    e.push((format!("{}abc de {}\n{}\n", head, w, say), format!("32{}\n", d)));
+                    e.push((format!("{}abc. {} de\n{}\n", head, w, say), format!("3.{}2\n", d)));
+                }
+                e.push((format!("rock x like abc {} de\nsay x at 0\n", w), format!("3{}2\n", d)));
+                if d != 0 {
+                    e.push((format!("x is {} abc\nsay x\n", w), format!("{}3\n", d)));
+                }
+            }
             // a right-hand side that starts with a number literal of any size is an ordinary expression
             for n in crate::refmodel::grammar::numerals() {
                 e.push((format!("x is {}\nput {} into y\nsay x is y\n", n, n), "true\n".to_string()));
